@@ -85,6 +85,17 @@ Theorem C11_no_deadlock : forall v env s, Reachable v env s -> inv_progress v en
 Proof. exact progress. Qed.
 Print Assumptions C11_no_deadlock.
 
+(* C09's blocking half ("asking for the next signal returns one as soon as one is queued"): whenever
+   a signal is queued, a reader parked in get_next_signal has been notified — it does not sleep on *)
+Theorem C11_signal_wakes_reader : forall v env s,
+  Reachable v env s -> q s = true ->
+  match pk (tw s) with ParkCv n _ _ => n = true | _ => True end.
+Proof.
+  intros v env s R Q. pose proof (sigwake v env s R) as H. unfold inv_sigwake in H.
+  rewrite Q in H. simpl in H. destruct (pk (tw s)); auto.
+Qed.
+Print Assumptions C11_signal_wakes_reader.
+
 (* Non-vacuity: an execution in which the task registers, finds the queue empty and the flag
    clear, parks; then stop(): set flag, read the registration, notify; the task resumes, sees the
    flag, unregisters and raises the stop exception. *)
